@@ -26,6 +26,16 @@ def pVScope : String → Option VScope
 def pAScope : String → Option AScope
   | "g" => some .global | "l" => some .loc | _ => none
 
+def pRefs : Nat → List String → Option (List (AScope × Nat) × List String)
+  | 0, r => some ([], r)
+  | k+1, sc :: i :: r => do
+    let sc ← pAScope sc
+    let i ← i.toNat?
+    let (rest, r) ← pRefs k r
+    some ((sc, i) :: rest, r)
+  | _, _ => none
+
+mutual
 def pExpr : Nat → P Expr
   | 0, _ => none
   | n+1, toks =>
@@ -103,7 +113,27 @@ def pExpr : Nat → P Expr
     | "G" :: r => do
       let (e, r) ← pExpr n r
       some (Expr.group e, r)
+    | "K" :: f :: nsc :: k :: r => do
+      let f ← f.toNat?
+      let nsc ← nsc.toNat?
+      let k ← k.toNat?
+      let (args, r) ← pArgs n k r
+      match r with
+      | m :: r => do
+        let m ← m.toNat?
+        let (refs, r) ← pRefs m r
+        some (Expr.call f nsc args refs, r)
+      | [] => none
     | _ => none
+
+def pArgs : Nat → Nat → P (List Expr)
+  | 0, _, _ => none
+  | _, 0, r => some ([], r)
+  | n+1, k+1, r => do
+    let (e, r) ← pExpr n r
+    let (es, r) ← pArgs n k r
+    some (e :: es, r)
+end
 
 def pExprs (n : Nat) : Nat → P (List Expr)
   | 0, r => some ([], r)
@@ -162,6 +192,10 @@ def pStmt : Nat → P Stmt
     | "k" :: r => do
       let (b, r) ← pList n r
       some (Stmt.block b, r)
+    | "r" :: "_" :: r => some (Stmt.ret none, r)
+    | "r" :: r => do
+      let (e, r) ← pExpr 10000 r
+      some (Stmt.ret (some e), r)
     | _ => none
 
 /-- `L <n> stmt*n` → right-nested `seq … skip` -/
@@ -237,7 +271,7 @@ def runStmt (s : Stmt) (w : S.W) : BlockOut S.W :=
     | .normal w => .normal w | .next w => .next w | .exit w => .exit w | _ => .error w
   else
     match exec S 100000 s w with
-    | some (.normal w) | some (.brk w) | some (.cont w) => .normal w
+    | some (.normal w) | some (.brk w) | some (.cont w) | some (.ret _ w) => .normal w
     | some (.next w) => .next w
     | some (.exit w) => .exit w
     | none => .error w
